@@ -400,7 +400,7 @@ class Interp:
             if (r.get("bk") == "mut" or k == "rawptr") and not any("deref" in e for e in p.get("p", [])):
                 # `&mut local`: a callee (or a write through the reference) may change the local behind our back
                 st["borrowed"] = st.get("borrowed", frozenset()) | {p["l"]}
-            if isinstance(v, tuple) and v[0] in ('fieldref', 'self', 'slice', 'array', 'nvit', 'some', 'none', 'enum', 'ok', 'tuple', 'range', 'pair', 'bool'):
+            if isinstance(v, tuple) and v[0] in ('fieldref', 'self', 'slice', 'array', 'nvit', 'some', 'none', 'enum', 'ok', 'tuple', 'range', 'pair', 'bool', 'closure', 'iter'):
                 return v
             if isinstance(v, Lin):
                 return v            # &usize: read-only views of integers are modelled by value
@@ -482,7 +482,7 @@ class Interp:
             if r["ak"] == "tuple":
                 return ('tuple', ops)
             if r["ak"] == "array":
-                return ('array', len(ops))
+                return ('array', len(ops), tuple(ops))      # (the element values matter when the array is iterated by a fold)
             if r["ak"] == "closure" and r.get("def"):
                 return ('closure', r["def"], tuple(ops))      # a closure value: its body and what it captured
             return self.opaque()
@@ -763,8 +763,15 @@ class Interp:
                     body = st["body"]
                     if ret is None:
                         ret = self.opaque()
-                    if fr.get("wrap") == 'some':
-                        ret = ('some', ret)         # Option::map: the closure's result goes back into Some
+                    if fr.get("k") is not None:
+                        # a combinator's closure returned: what the combinator does with the result (wrap it, feed the next round of a fold)
+                        act = fr["k"](ret)
+                        if act[0] == 'call' and self._enter_closure(st, fr["dest"], fr["target"], fr["visits"], act[1], act[2], act[3]):
+                            body = st["body"]
+                            bb = 0
+                            visits = dict(fr["visits"])     # (the closure's blocks are visited afresh in every round)
+                            continue
+                        ret = act[1] if act[0] == 'done' else self.opaque()
                     self.store(st, fr["dest"], ret)
                     bb = fr["target"]
                     visits = fr["visits"]
@@ -921,63 +928,9 @@ class Interp:
                 alts = [(('some', a + b), [Lin(top) - (a + b)], "%s checked_add(%s, %s) is Some" % (where, a, b)),
                         (('none',), [(a + b) - top - 1], "%s checked_add(%s, %s) overflows" % (where, a, b))]
             return self.fork(st, t, visits, alts)
-        if name.startswith("std::option::Option::") and args and isinstance(args[0], tuple) and args[0][0] in ('some', 'none') and \
-                short in ("map_or", "map_or_else", "map", "unwrap_or", "unwrap_or_else", "and_then", "is_some_and", "unwrap_or_default"):
-            # the Option combinators on a value whose variant is known on this path: the closure that runs is looked into
-            a0 = args[0]
-
-            def run_closure(cv, cargs, wrap=None):
-                cb = self.facts.by_path.get(cv[1]) if isinstance(cv, tuple) and cv[0] == 'closure' else None
-                if cb is None or cb.argc != 1 + len(cargs):
-                    return False
-                env = {1: cv}
-                for i, a in enumerate(cargs):
-                    env[2 + i] = a
-                st["stack"].append({"body": st["body"], "env": st["env"], "dest": t["dest"], "target": t["target"], "visits": visits,
-                                    "gconst": st.get("gconst"), "wrap": wrap})
-                st["body"], st["env"] = cb, env
-                self.stats["inlined"] += 1
-                return True
-            some = a0[0] == 'some'
-            if short == "map_or" and len(args) == 3:
-                if not some:
-                    self.store(st, t["dest"], args[1])
-                    return None
-                if run_closure(args[2], [a0[1]]):
-                    return 'inlined'
-            elif short == "map_or_else" and len(args) == 3:
-                if run_closure(args[2], [a0[1]]) if some else run_closure(args[1], []):
-                    return 'inlined'
-            elif short == "map" and len(args) == 2:
-                if not some:
-                    self.store(st, t["dest"], ('none',))
-                    return None
-                if run_closure(args[1], [a0[1]], wrap='some'):
-                    return 'inlined'
-            elif short == "and_then" and len(args) == 2:
-                if not some:
-                    self.store(st, t["dest"], ('none',))
-                    return None
-                if run_closure(args[1], [a0[1]]):
-                    return 'inlined'
-            elif short == "is_some_and" and len(args) == 2:
-                if not some:
-                    self.store(st, t["dest"], ('bool', 0))
-                    return None
-                if run_closure(args[1], [a0[1]]):
-                    return 'inlined'
-            elif short == "unwrap_or" and len(args) == 2:
-                self.store(st, t["dest"], a0[1] if some else args[1])
-                return None
-            elif short == "unwrap_or_else" and len(args) == 2:
-                if some:
-                    self.store(st, t["dest"], a0[1])
-                    return None
-                if run_closure(args[1], []):
-                    return 'inlined'
-            elif short == "unwrap_or_default" and some:
-                self.store(st, t["dest"], a0[1])
-                return None
+        r_ = self.combinator(st, t, name, short, args, dty, visits)
+        if r_ is not NotImplemented:
+            return r_
         if short in ("expect", "unwrap") and args and isinstance(args[0], tuple) and args[0][0] in ('some', 'none', 'ok'):
             if args[0][0] == 'none':
                 return 'forked'     # diverges
@@ -1084,6 +1037,119 @@ class Interp:
             st["env"].pop(l, None)
         self.store(st, t["dest"], self.fresh_for(dty, ctx, short or "r"))
         return None
+
+    # -- closures and the std combinators that run them -------------------------------------------------
+    def _enter_closure(self, st, dest, target, visits, cv, cargs, k):
+        """Continue the walk inside the body of closure value cv applied to cargs; on its return k(result) decides what happens next."""
+        cb = self.facts.by_path.get(cv[1]) if isinstance(cv, tuple) and cv[0] == 'closure' else None
+        if cb is None or cb.argc != 1 + len(cargs) or len(st["stack"]) > 12:
+            return False
+        env = {1: cv}
+        for i, a in enumerate(cargs):
+            env[2 + i] = a
+        st["stack"].append({"body": st["body"], "env": st["env"], "dest": dest, "target": target, "visits": visits,
+                            "gconst": st.get("gconst"), "k": k})
+        st["body"], st["env"] = cb, env
+        self.stats["inlined"] += 1
+        return True
+
+    def combinator(self, st, t, name, short, args, dty, visits):
+        """Option / Result combinators on a value whose variant is known on this path, and folds over an array literal: the closure
+        that runs is looked into (its obligations and events count like the caller's own).  NotImplemented = not one of these."""
+        a0 = args[0] if args else None
+        if not isinstance(a0, tuple):
+            return NotImplemented
+
+        def go(cv, cargs, k):
+            return 'inlined' if self._enter_closure(st, t["dest"], t["target"], visits, cv, cargs, k) else NotImplemented
+
+        def done(v):
+            self.store(st, t["dest"], v)
+            return None
+        ident = lambda ret: ('done', ret)
+        if name.startswith("std::option::Option::") and a0[0] in ('some', 'none'):
+            some = a0[0] == 'some'
+            if short == "map_or" and len(args) == 3:
+                return go(args[2], [a0[1]], ident) if some else done(args[1])
+            if short == "map_or_else" and len(args) == 3:
+                return go(args[2], [a0[1]], ident) if some else go(args[1], [], ident)
+            if short == "map" and len(args) == 2:
+                return go(args[1], [a0[1]], lambda ret: ('done', ('some', ret))) if some else done(('none',))
+            if short == "and_then" and len(args) == 2:
+                return go(args[1], [a0[1]], ident) if some else done(('none',))
+            if short == "is_some_and" and len(args) == 2:
+                return go(args[1], [a0[1]], ident) if some else done(('bool', 0))
+            if short == "unwrap_or" and len(args) == 2:
+                return done(a0[1] if some else args[1])
+            if short == "unwrap_or_else" and len(args) == 2:
+                return done(a0[1]) if some else go(args[1], [], ident)
+            if short == "unwrap_or_default" and some:
+                return done(a0[1])
+            if short == "ok_or" and len(args) == 2:
+                return done(('enum', 0, (a0[1],)) if some else ('enum', 1, (args[1],)))
+            if short == "ok_or_else" and len(args) == 2:
+                return done(('enum', 0, (a0[1],))) if some else go(args[1], [], lambda ret: ('done', ('enum', 1, (ret,))))
+            return NotImplemented
+        if name.startswith("std::result::Result::") and a0[0] == 'enum' and a0[1] in (0, 1):
+            ok = a0[1] == 0
+            pay = a0[2][0] if a0[2] else self.opaque()
+            if short == "map" and len(args) == 2:
+                return go(args[1], [pay], lambda ret: ('done', ('enum', 0, (ret,)))) if ok else done(a0)
+            if short == "map_err" and len(args) == 2:
+                return done(a0) if ok else go(args[1], [pay], lambda ret: ('done', ('enum', 1, (ret,))))
+            if short == "and_then" and len(args) == 2:
+                return go(args[1], [pay], ident) if ok else done(a0)
+            if short == "or_else" and len(args) == 2:
+                return done(a0) if ok else go(args[1], [pay], ident)
+            if short == "and" and len(args) == 2:
+                return done(args[1] if ok else a0)
+            if short == "map_or" and len(args) == 3:
+                return go(args[2], [pay], ident) if ok else done(args[1])
+            if short == "unwrap_or" and len(args) == 2:
+                return done(pay if ok else args[1])
+            if short == "unwrap_or_else" and len(args) == 2:
+                return done(pay) if ok else go(args[1], [pay], ident)
+            if short == "ok" and len(args) == 1:
+                return done(('some', pay) if ok else ('none',))
+            return NotImplemented
+        if short == "into_iter" and a0[0] == 'array' and len(a0) == 3 and len(args) == 1:
+            return done(('iter', a0[2]))            # an array literal consumed by value: its elements, in order
+        if a0[0] == 'iter' and (name.startswith("std::iter::Iterator::") or "std::iter::Iterator>::" in name) and short in ("try_fold", "fold", "for_each", "try_for_each"):
+            vals = a0[1]
+            f = args[-1]
+            is_try = short.startswith("try_")
+            has_acc = short.endswith("fold")
+            if len(args) != (3 if has_acc else 2):
+                return NotImplemented
+            rty = str(dty or "")
+
+            def wrap(acc):
+                if not is_try:
+                    return acc
+                if rty.startswith("std::option::Option"):
+                    return ('some', acc)
+                return ('enum', 0, (acc,))          # Result::Ok / ControlFlow::Continue
+
+            def step(i, acc):
+                if i == len(vals):
+                    return ('done', wrap(acc))
+                return ('call', f, ([acc] if has_acc else []) + [vals[i]], lambda ret, _i=i: after(_i, ret))
+
+            def after(i, ret):
+                if not is_try:
+                    return step(i + 1, ret)
+                if isinstance(ret, tuple) and ret[0] == 'enum' and ret[1] == 0:
+                    return step(i + 1, ret[2][0] if ret[2] else self.opaque())
+                if isinstance(ret, tuple) and ret[0] == 'some':
+                    return step(i + 1, ret[1])
+                if isinstance(ret, tuple) and (ret[0] == 'none' or (ret[0] == 'enum' and ret[1] == 1)):
+                    return ('done', ret)            # the fold stops at the first Err / None / Break and returns it
+                return ('done', self.opaque())
+            act = step(0, args[1] if has_acc else ('tuple', []))
+            if act[0] == 'done':
+                return done(act[1])
+            return go(act[1], act[2], act[3])
+        return NotImplemented
 
     # -- region tracking -------------------------------------------------------------------------------
     def copy_within(self, st, s, e, d, sp):
